@@ -381,6 +381,12 @@ func c08Run(w *W) {
 	rm := a.r.kept[0]
 	a.r.kept = nil
 	rm.Body = append(rm.Body[:0], "reuse:"+a.name...)
+	if rm.Pipe != nil && w.Choose(simrt.SProg, 2) == 0 {
+		// a header set by the application means nothing on a cooked socket - not
+		// even one that spells the id of the connection the old content came on
+		rm.Header = append(rm.Header[:0], u32(rm.Pipe.ID())...)
+		w.Probe("application-header-on-cooked-socket")
+	}
 	if err := a.s.SendMsg(rm); err != nil {
 		w.Failf("C08/send-failed", "%s re-using a received message: %v", a.name, err)
 		return
